@@ -21,8 +21,8 @@ RULE = ("constructors: every name = letter x every '#'/'b' string up to length k
 ASSUMPTIONS = [
     "oracle: own constructor table (interval number, semitones) and letter/semitone arithmetic in vlib/ref/theory.py",
     "spelling is compared as (letter, pitch class, unmixed, <= 6 accidentals), never as an exact accidental string",
-    "unison constructors (diminish / identity / augment of the input string): 'unmixed, <= 6 accidentals' is asserted only "
-    "for inputs that are themselves unmixed with <= 5 accidentals; letter, semitones and validity for all inputs",
+    "the three unison constructors are held to the same 'unmixed, <= 6 accidentals, whatever the input' clause as the other 14 "
+    "(the statement lists them; repaired in the repository, see KNOWN_FINDINGS.txt)",
     "is_dissonant(a, b, f) is read as not is_consonant(a, b, not f) (its flag says whether fourths count as dissonant)",
 ]
 
@@ -51,13 +51,9 @@ def check_constructor(ctx, case):
         ctx.check(T.valid(r), sig + "/valid", what)
         ctx.check(r[0] == letter, sig + "/letter", what)
         ctx.check(T.pc(r) == pclass, sig + "/semitones", what)
-        if cname in UNISONS:
-            normal_promised = T.unmixed(name) and len(name) - 1 <= 5
-        else:
-            normal_promised = True
-        if normal_promised:
-            ctx.check(T.unmixed(r), sig + "/mixed-accidentals", what)
-            ctx.check(len(r) - 1 <= 6, sig + "/too-many-accidentals", what)
+        # all 17 constructors, the three unisons included, "whatever the input's accidentals"
+        ctx.check(T.unmixed(r), sig + "/mixed-accidentals", what)
+        ctx.check(len(r) - 1 <= 6, sig + "/too-many-accidentals", what)
     wraps = T.LETTERS.index(name[0]) + number - 1 >= 7
     folds = abs(_plain_accidental(name, number, semis)) > 6
     labels = ["constructor:" + cname, "acc-len:%d" % min(len(name) - 1, 9)]
